@@ -42,6 +42,8 @@ type Holdings struct {
 	MaxSup   map[uint64]*big.Int
 	BaseSide *big.Int // bancor reserves + accumulated rewards + total slashed
 	Negative []string
+	ValAccum map[types.Pubkey]*big.Int // accumulated reward per validator
+	CandOn   map[types.Pubkey]bool     // candidates that are online
 }
 
 func bi(s string) *big.Int {
@@ -120,8 +122,13 @@ func holdings(st *types.AppState) *Holdings {
 			h.Negative = append(h.Negative, fmt.Sprintf("volume coin %d = %s exceeds max supply %s", c.ID, c.Volume, c.MaxSupply))
 		}
 	}
+	h.ValAccum, h.CandOn = map[types.Pubkey]*big.Int{}, map[types.Pubkey]bool{}
 	for _, v := range st.Validators {
 		h.BaseSide.Add(h.BaseSide, bi(v.AccumReward))
+		h.ValAccum[v.PubKey] = bi(v.AccumReward)
+	}
+	for _, c := range st.Candidates {
+		h.CandOn[c.PubKey] = c.Status == 2
 	}
 	h.BaseSide.Add(h.BaseSide, bi(st.TotalSlashed))
 	return h
@@ -222,7 +229,7 @@ func runRecorded(h *History, o *execOpts) (*HistResult, *Node) {
 				dBase := new(big.Int).Sub(cur.baseTotal(), prev.baseTotal())
 				dEm := new(big.Int).Sub(em, prevEm)
 				if dBase.Cmp(dEm) != 0 {
-					res.C01 = append(res.C01, MonitorFailure{What: fmt.Sprintf("C01: base coin total changed by %s but emission by %s at %s", dBase, dEm, where), Key: "c01-base"})
+					res.C01 = append(res.C01, MonitorFailure{What: fmt.Sprintf("C01: base coin total changed by %s but emission by %s at %s", dBase, dEm, where), Key: baseDiffKey(prev, cur, dBase, dEm)})
 				}
 				prev, prevEm = cur, new(big.Int).Set(em)
 			}
@@ -646,7 +653,7 @@ func genHistory(seed uint64, spec *GenesisSpec, g *genOpts) (*History, *HistResu
 				dBase := new(big.Int).Sub(cur.baseTotal(), prev.baseTotal())
 				dEm := new(big.Int).Sub(em, prevEm)
 				if dBase.Cmp(dEm) != 0 {
-					res.C01 = append(res.C01, MonitorFailure{What: fmt.Sprintf("C01: base coin total changed by %s but emission by %s at %s", dBase, dEm, where), Key: "c01-base"})
+					res.C01 = append(res.C01, MonitorFailure{What: fmt.Sprintf("C01: base coin total changed by %s but emission by %s at %s", dBase, dEm, where), Key: baseDiffKey(prev, cur, dBase, dEm)})
 				}
 				prev, prevEm = cur, new(big.Int).Set(em)
 			}
@@ -712,4 +719,31 @@ func derivedState(n *Node) string {
 		out += " grace=" + strings.Join(u, "")
 	}
 	return out
+}
+
+
+// baseDiffKey names the finding a base-coin discrepancy of a block belongs to.  A validator that leaves the set at a
+// refresh in the middle of a period WITHOUT being dropped (its candidate stays online: it was simply not re-selected,
+// e.g. its stake was unbonded) loses its accumulated reward: SetNewValidators forgets it, although the emission
+// counter already counts it (known finding).  The loss is that validator's accumulated reward before the block plus
+// at most its share of this block's pool.
+func baseDiffKey(prev, cur *Holdings, dBase, dEm *big.Int) string {
+	loss := new(big.Int).Sub(dEm, dBase)
+	if loss.Sign() <= 0 || prev.ValAccum == nil {
+		return "c01-base"
+	}
+	lost := big.NewInt(0)
+	n := 0
+	for k, a := range prev.ValAccum {
+		if _, stays := cur.ValAccum[k]; !stays && cur.CandOn[k] {
+			lost.Add(lost, a)
+			n++
+		}
+	}
+	upper := new(big.Int).Add(lost, new(big.Int).Mul(dEm, big.NewInt(2)))
+	upper.Add(upper, pip(1000))
+	if n > 0 && loss.Cmp(lost) >= 0 && loss.Cmp(upper) <= 0 {
+		return "c01-deselected-validator-reward-lost"
+	}
+	return "c01-base"
 }
